@@ -197,7 +197,7 @@ func genCase(t *rapid.T) Case {
 				s1.Evs = append(s1.Evs, Ev{K: "rmlink", A: e[0], B: e[1]})
 				m.linkUp[lkey(e[0], e[1])] = false
 			}
-			cnt := rapid.SampledFrom([]int{40, 101, 103, 120}).Draw(t, "burstCnt")
+			cnt := rapid.SampledFrom([]int{40, 99, 100, 101, 102, 103, 120}).Draw(t, "burstCnt")
 			s2 := Step{Evs: []Ev{{K: "burst", A: x, Cnt: cnt}}}
 			for j := 0; j < cnt; j++ {
 				m.ann[x][j%3] = !m.ann[x][j%3]
